@@ -55,8 +55,8 @@ ASSUMPTIONS = [
     "equal (digest, mode, size) means unchanged content (FileHash equality; C13); mtime/inode are not compared",
     "not modelled in Graph.st: glob registrations (abstract set G in the cone), resources, targets, static trees, "
     "the cached scheduling columns (_implied_need is modelled by its specification `required`)",
-    "the bridge `successful history -> quiescent_success_b` (Definition C04_bridge) is validated on every "
-    "generated successful E2 history, not proved",
+    "the end-of-phase predicate end_of_phase_b of the bridge theorem (C04_bridge) agrees with what the real database "
+    "says at the end of every drained E2 phase (validated on every run, both verdicts); the bridge itself is proved",
     "E3 commands are simulated; their behaviour is a function of label, declared inputs and environment",
 ]
 
@@ -185,6 +185,17 @@ def correspondence(ctx):
         names.append((i, "trace", None))
         ctx.count("e2:cases")
         ctx.count("e2:reached_q", int(ok))
+        failed, pending, busy, done = marks["verdict"]
+        if done:
+            # the end-of-phase predicate of the bridge theorem, evaluated on the model state at the end of
+            # the drained phase, must say what the real database says (no attached FAILED step, empty
+            # pending universe by the real _implied_need column, no job in flight)
+            drained = [t for t in trace[:marks["drained"]] if t[0][0] != "dispatch_error"]
+            real_ok = not (failed or pending or busy)
+            checks.append(f"Bool.eqb (end_of_phase_b (run_xops {c04_e2.cq_xops(drained)} (init_st 3))) "
+                          f"{common.coq_bool(real_ok)}")
+            names.append((i, "eop", (failed, pending, busy)))
+            ctx.count(f"e2:end_of_phase_checks:real_ok={real_ok}")
         if not ok:
             ctx.count(f"e2:not_successful:failed={marks['verdict'][0] > 0},pending={marks['verdict'][1] > 0}")
             ctx.case(("e2", i, "noq"), nontrivial=False)
@@ -252,6 +263,11 @@ def correspondence(ctx):
         elif what == "bridge":
             ctx.add_failure("correspondence", "E2:bridge", "E2:bridge:quiescent_success_b-false-after-successful-finalize",
                             f"quiescent_success_b is false on the state a successful finalize left (case {i})", witness=wit)
+        elif what == "eop":
+            ctx.add_failure("correspondence", "E2:bridge", "E2:bridge:end_of_phase_b-disagrees-with-the-real-verdict",
+                            f"end_of_phase_b on the model state at the end of the drained phase disagrees with the real "
+                            f"database (attached FAILED steps, PENDING steps with _implied_need > OPTIONAL, jobs in "
+                            f"flight) = {extra} (case {i})", witness=wit)
         elif what == "nodispatch":
             ctx.add_failure("correspondence", "E2:nodispatch", "E2:dispatch-guard-nonempty-on-quiescent-state",
                             f"the model's dispatch guard selects a step on a quiescent state (case {i})", witness=wit)
